@@ -122,18 +122,22 @@ var Scenarios = []Directed{
 		s.Begin(allHdr)
 		s.expect(OK(s.Stake(6, 5, "7e18")), "a6 delegates 7 to a5")
 		s.expect(OK(s.Stake(7, 5, "1e18")), "a7 delegates 1 to a5 (forfeited by a 34% slash)")
+		s.expect(OK(s.Stake(8, 5, "1e18")), "a8 delegates 1 to a5 (a second stake too small to be cut)")
+		s.expect(OK(s.Stake(9, 5, "2e18")), "a9 delegates 2 to a5 (floor(2*34/100) = 0: forfeited as well)")
+		s.expect(OK(s.Stake(6, 5, "3e18")), "a6 delegates 3 more to a5 (an ordinary stake after the small ones)")
 		s.End()
 		s.Blocks(3, allHdr)
 		s.Begin(Hdr{Evidence: []int{5}})
 		ids := s.StakeIDs(6, 5)
-		s.expect(len(ids) == 1, "a6's stake survives the slash")
-		if len(ids) == 1 {
+		s.expect(len(ids) == 2, "a6's two stakes survive the slash")
+		s.expect(len(s.StakeIDs(7, 5))+len(s.StakeIDs(8, 5))+len(s.StakeIDs(9, 5)) == 0, "the three stakes too small to be cut are forfeited")
+		if len(ids) >= 1 {
 			// (the stake limiter still holds the pre-slash power, so this attempt is refused; no listed property says otherwise)
 			s.Unstake(6, 5, ids[0])
 		}
 		s.End()
 		s.Begin(allHdr)
-		if ids := s.StakeIDs(6, 5); len(ids) == 1 {
+		if ids := s.StakeIDs(6, 5); len(ids) >= 1 {
 			s.expect(OK(s.Unstake(6, 5, ids[0])), "a6 unstakes the slashed stake")
 		}
 		s.End()
